@@ -216,7 +216,11 @@ HELPERS_EDITS = [
     ('h-sum-axis', 'semantic', "Table.sum: 'sample' sums along axis 1",
      [("        elif axis == 'sample':\n            axis = 0\n        elif axis == 'observation':\n            axis = 1",
        "        elif axis == 'sample':\n            axis = 1\n        elif axis == 'observation':\n            axis = 0")]),
+    ('h-index-wrong-ids', 'semantic', '_index_ids builds the sample index from the observation ids',
+     [('            self._sample_index = index_list(self._sample_ids)', '            self._sample_index = index_list(self._observation_ids)')]),
     ('h-rename', 'preserving', '_union_id_order: local all_ids renamed', [('all_ids', 'every_id')]),
+    ('h-index-optional', 'reject', '_index_ids stores the other (possibly None) argument',
+     [('            self._sample_index = sample_index', '            self._sample_index = observation_index')]),
     ('h-dict-call', 'reject', '_union_id_order: dict() instead of {}',
      [('        all_ids.extend(b[:])\n        new_order = {}', '        all_ids.extend(b[:])\n        new_order = dict()')]),
 ]
@@ -239,12 +243,12 @@ TARGETS = [
     ('filter', '_filter.pyx', 'FilterGen.v', KERNEL_COQ_FILES, KERNEL_EDITS, 'C08'),
     ('transform', '_transform.pyx', 'TransformGen.v', ['Gen/TransformGen.v', 'Proofs/GenBridgeProofs.v'], TRANSFORM_EDITS, 'C13'),
     ('subsample', '_subsample.pyx', 'SubsampleGen.v', ['Gen/SubsampleGen.v', 'Proofs/GenBridgeSubsampleProofs.v'], SUBSAMPLE_EDITS, 'C12'),
-    ('helpers', 'table.py', 'HelpersGen.v', ['Gen/HelpersGen.v', 'Proofs/GenBridgeMergeProofs.v', 'Proofs/GenBridgeAxisProofs.v'], HELPERS_EDITS, 'C09'),
+    ('helpers', 'table.py', 'HelpersGen.v', ['Gen/HelpersGen.v', 'Proofs/GenBridgeMergeProofs.v', 'Proofs/GenBridgeAxisProofs.v', 'Proofs/GenBridgeIndexedProofs.v'], HELPERS_EDITS, 'C09'),
     ('util', 'util.py', 'UtilGen.v', ['Gen/UtilGen.v', 'Proofs/GenBridgeMergeProofs.v', 'Proofs/GenBridgeIndexProofs.v'], UTIL_EDITS, 'C09'),
 ]
 GLOBAL_RENAMES = ('rename-local', 'k-rename', 't-rename', 'h-rename')
 # the property whose check an edit is run through with --check, where it is not the target's default
-EDIT_PROP = {'h-axis-num': 'C19', 'h-sum-axis': 'C19', 'u-index-plus1': 'C05', 'u-rename': 'C05'}
+EDIT_PROP = {'h-index-wrong-ids': 'C05', 'h-axis-num': 'C19', 'h-sum-axis': 'C19', 'u-index-plus1': 'C05', 'u-rename': 'C05'}
 
 
 def prepare_coq(d):
